@@ -1,5 +1,6 @@
 import Refine.Lemmas.ContainersSort
 import Mathlib.Order.Defs.LinearOrder
+import Mathlib.Data.Int.Order.Basic
 
 /-! Heap sort (`ref_sort_heap_int/_glob/_dbl`): the literal sift-down loop yields a permutation (any comparison)
     under which the keys are non-decreasing (linear order). -/
@@ -400,5 +401,20 @@ theorem sortHeap_sorted : (applyIdx a (sortHeap ltOf a)).Pairwise (· ≤ ·) :=
   rwa [getD_eq_getElem' _ _ hi, getD_eq_getElem' _ _ hj] at this
 
 end sorted
+
+/-- applying a permutation of `0..n-1` to `a` permutes `a` -/
+theorem applyIdx_perm {α : Type} [Inhabited α] (a : List α) (idx : List Nat)
+    (h : idx.Perm (List.range a.length)) : (applyIdx a idx).Perm a := by
+  have h1 : (applyIdx a idx).Perm ((List.range a.length).map fun k => a.getD k default) := h.map _
+  have h2 : ((List.range a.length).map fun k => a.getD k default) = a := by
+    apply List.ext_getElem (by simp)
+    intro i h1 h2
+    simp only [List.getElem_map, List.getElem_range]
+    exact getD_eq_getElem' a default h2
+  rwa [h2] at h1
+
+theorem ltInt_eq : ltInt = ltOf (α := Int) := by
+  funext x y; simp [ltInt, ltOf]
+
 
 end Refine.Model.Sort
